@@ -25,5 +25,5 @@ func (e *Engine) symBufAppend(w *Worker, st *State, g *G, fr *Frame, b *SymBuf, 
 	return nil
 }
 func (e *Engine) toSymBuf(st *State, v Value) *SymBuf { return nil }
-func vBytes(c *icall)      { unsupported(c.pos(), "vBytes") }
-func vBytesEqual(c *icall) { unsupported(c.pos(), "vBytesEqual") }
+func vBytes(c *icall)                                 { unsupported(c.pos(), "vBytes") }
+func vBytesEqual(c *icall)                            { unsupported(c.pos(), "vBytesEqual") }
